@@ -644,7 +644,7 @@ class H6(Case):
     def __init__(self, N, nq):
         self.N, self.nq = N, nq
         self.id = "H6/cache_history_N%d_q%d" % (N, nq)
-        self.bounds = {"N": N, "queries on one object": nq, "matrix dimension per query": [2, N + 1]}
+        self.bounds = {"N": N, "queries on one object": nq, "matrix dimension per query": [1, N + 1]}
         # concrete bath (only its coupling operator / transform are read), built outside the symbolic environment
         self.bath = oqupy.Bath(0.5 * oqupy.operators.sigma("z"),
                                oqupy.PowerLawSD(alpha=0.1, zeta=1.0, cutoff=1.0, cutoff_type="exponential"))
@@ -670,7 +670,7 @@ class H6(Case):
                     out[x, y] = stub.value([a, b]) if a <= b else complex(np.nan, np.nan)
             return [np.array(ia) * pt_.dt, np.array(ib) * pt_.dt], out
 
-        ks = [sym_int(inp, "k%d" % i, 2, N + 1) for i in range(self.nq)]
+        ks = [sym_int(inp, "k%d" % i, 1, N + 1) for i in range(self.nq)]
         fts = [near_time(inp, "ft%d" % i, ks[i], 0.0, dt) for i in range(self.nq)]
         obs = []
         with patched({BD + ".compute_correlations": fake_cc}), _quiet():
@@ -863,6 +863,47 @@ class H8(Case):
         return obs
 
 
+# --------------------------------------------------------------------------
+# H9  (E2, bit-precise floats) the step indices of TwoTimeBathCorrelations._calc_kernel
+# --------------------------------------------------------------------------
+from vf import fpx
+from vf.fpx import FCase, FOb, FInputs
+
+
+class H9(FCase):
+    """TwoTimeBathCorrelations._calc_kernel: the region boundary `switch` (index of the earlier time t_1) and the kernel
+    dimension `ker_dim` (index of t_2) are the grid indices of the given times, for every double within one ulp of
+    fl(k*dt) (this includes decimal literals such as 0.3 with dt 0.1, where 0.3/0.1 = 2.9999999999999996).
+    The two assignments are evaluated from the CURRENT source (backward slice), nothing is copied into the harness."""
+    env = {"extra": fpx.shadows("oqupy.bath_dynamics")}
+    stubs = ("backward slice of _calc_kernel w.r.t. `switch` / `ker_dim` (the kernel arithmetic after them is outside this case; "
+             "it is covered through the closed-form comparison of H8)",)
+    assumptions = ("time within one ulp of fl(k*dt), 1e-3 <= dt <= 10, k <= 1000",)
+    timeout_s = 120
+    fp_timeout_s = 60
+
+    def __init__(self, which):
+        self.which = which          # 'switch' (time_1) | 'ker_dim' (time_2)
+        self.id = "H9/_calc_kernel/%s" % which
+        self.bounds = {"k_max": 1000, "dt": [1e-3, 10], "time": "grid point +- 1 ulp"}
+        self.functions = ("oqupy/bath_dynamics.py:TwoTimeBathCorrelations._calc_kernel (backward slice of `%s`)" % which,)
+
+    def fp_instances(self, fi):
+        dt, k = fi.fpvars["dt"], fi.fpvars["k"]
+        return [("dt=0.1, k<=15", [dt == z3.FPVal(0.1, fpx.F64), z3.ULE(k, 15)]), ("k<=15", [z3.ULE(k, 15)]),
+                ("dt=0.1", [dt == z3.FPVal(0.1, fpx.F64)])]
+
+    def run(self, inp):
+        import oqupy.bath_dynamics as bd
+        fi = FInputs.wrap(inp)
+        dt = fi.double("dt", 1e-3, 10.0)
+        k = fi.count("k", 0, 1000)
+        t = fi.neighbour("t", fi.to_float(k) * dt)
+        val, stmts = fpx.eval_slice(bd.TwoTimeBathCorrelations._calc_kernel, self.which, {"time_1": t, "time_2": t, "dt": dt})
+        info = None if fi.symbolic else "dt=%r t=%r k=%d -> %s = %r (%s)" % (dt, t, k, self.which, val, "; ".join(stmts))
+        return [FOb("%s == grid index of the time" % self.which, val == k, key="index", outputs={"n": val}, info=info)]
+
+
 def cases(tier):
     cs = []
     # ---- H1 _parse_times
@@ -878,6 +919,7 @@ def cases(tier):
         cs += [H2("ordered", ("list2", "list3"), 2, part), H2("anti", ("list2", "list2"), 2, part), H2("nt", ("int", "int", "list2"), 2, part)]
     cs += [H2("nt", ("int", "int", "int", "int"), 3)]          # earlier operators pairwise out of order (needs >= 4 operators)
     cs += [H6(3, 2), H6(4, 3)]
+    cs += [H9("switch"), H9("ker_dim")]
     cs += [H8(0.8), H8(0, True), H8(0.8, False)]
     cs += [H7("sigma_y"), H7("n_sigma"), H7("sigma_x"), H7("herm3")]
     # ---- H3 dt
@@ -902,3 +944,8 @@ def cases(tier):
                H4("nt", ("left", "right", "left"), ("all", "all", "all"), 2), H4("nt", ("right", "left", "right"), ("int", "rev", "all"), 3, bond=1),
                H4("nt", ("left", "left", "left"), ("all", "all", "all"), 3, rank=3)]
     return cs
+
+
+def main(tier, seed, args):
+    import sys
+    return fpx.run_cases("C07", sys.modules[__name__], tier, seed, args, hard_timeout_s=(600 if tier == "quick" else 3000))
